@@ -1406,8 +1406,10 @@ class BaseImage(metaclass=ImageMeta):
             else:  # middle
                 top = (height - lines) // 2
                 bottom = height - lines - top
-            top = f"{' ' * width}\n" * top
-            bottom = f"\n{' ' * width}" * bottom
+            # Padding lines span the entire padded width (even when there's no
+            # horizontal padding i.e the padding width is less than the rendered width)
+            top = f"{' ' * max(width, cols)}\n" * top
+            bottom = f"\n{' ' * max(width, cols)}" * bottom
         else:
             top = bottom = ""
 
